@@ -59,7 +59,13 @@ func HarnessOps(k int, n int) {
 			for _, o := range issued {
 				fresh = vh.And(fresh, !vh.StrEq(t.Token, o))
 			}
-			vh.Assume(fresh)
+			if vh.FromRandomSource(t.Token) {
+				vh.Assume(fresh) // distinctness of random strings: an assumption about the generator
+			} else {
+				// any other way of making tokens has to guarantee it
+				vh.Assert("C10/issued-tokens-pairwise-distinct", fresh)
+				vh.Assume(fresh)
+			}
 			issued = append(issued, t.Token)
 			in = vh.Or(in, vh.StrEq(probe, t.Token))
 			// it authenticates from that moment
